@@ -43,9 +43,11 @@ def run_plate_scenario(p, wd):
     field_sets = [[names[0]], [names[-1], "grid_level"], list(reversed(names)), ["all"], ["grid_level"], names[0]]
     restore = poison()
     try:
-        for _ in range(p.get("ncombos", 4)):
+        for ci in range(p.get("ncombos", 4)):
             fields = rng.choice(field_sets)
-            lim = rng.choice([None] + list(range(pf.L + 1)))
+            # the first combination has no limit, the second a limit strictly below the finest level (when there is one), the
+            # others any
+            lim = None if ci == 0 else (rng.randrange(pf.L) if (ci == 1 and pf.L > 0) else rng.choice([None] + list(range(pf.L + 1))))
             serial = rng.random() < 0.5
             what = f"Mandoline(2D, fields={fields}, limit_level={lim}, serial={serial}).slice(fformat='return')"
             checks += 1
@@ -219,7 +221,9 @@ def run_slice_scenario(p, wd):
     try:
         for ci in range(p.get("ncombos", 3)):
             cn = rng.randrange(3)
-            lim = rng.choice([None] + list(range(pf.L + 1)))
+            # the first combination has no limit, the second a limit strictly below the finest level (when there is one), the
+            # others any
+            lim = None if ci == 0 else (rng.randrange(pf.L) if (ci == 1 and pf.L > 0) else rng.choice([None] + list(range(pf.L + 1))))
             L = pf.L if lim is None else lim
             serial = rng.random() < 0.6
             nsel = rng.randrange(1, len(names) + 1)
@@ -311,7 +315,9 @@ def run_slice_plotfile_scenario(p, wd):
     try:
         for ci in range(p.get("ncombos", 3)):
             cn = rng.randrange(3) if p.get("normal") is None else p["normal"]
-            lim = rng.choice([None] + list(range(pf.L + 1)))
+            # the first combination has no limit, the second a limit strictly below the finest level (when there is one), the
+            # others any
+            lim = None if ci == 0 else (rng.randrange(pf.L) if (ci == 1 and pf.L > 0) else rng.choice([None] + list(range(pf.L + 1))))
             L = pf.L if lim is None else lim
             nsel = rng.randrange(1, len(names) + 1)
             fields = rng.sample(names, nsel)
